@@ -38,7 +38,18 @@ SOUP = ["->-> k(", "-> k)( ->", "-> k(", "<- k(1", "f(", "))", "((", "-> nowhere
 
 
 def mutate_text(src, rng, others):
-    k = rng.randrange(9)
+    k = rng.randrange(10)
+    if k == 9 and src:                                   # localise: non-ASCII text where ASCII words stood
+        import re
+        words = [m for m in re.finditer(r"[A-Za-z]{3,}", src)]
+        out, last = [], 0
+        for m in words:
+            if rng.random() < 0.15:
+                out.append(src[last:m.start()])
+                out.append(rng.choice(["é", "ñandú", "日本語", "ありがとう", "😀", "Ωμέγα", "naïve", "ß", "\u2028x", "𠮷野"]))
+                last = m.end()
+        out.append(src[last:])
+        return "".join(out)
     if k == 0 and src:                                   # delete a span
         i = rng.randrange(len(src)); j = min(len(src), i + rng.choice([1, 1, 2, 5, 20]))
         return src[:i] + src[j:]
